@@ -1,8 +1,118 @@
-(* Property theorems for C06 -- statements only; proofs are `exact` of lemmas. *)
-From Coq Require Import ZArith List.
-From GD Require Import C06.Convert C06.ConvertProofs Gen.ConvTable.
+(* Property theorems for C06 -- statements only; proofs are `exact` of lemmas.
+   conv_table is regenerated from /repo/src/types.c by translate/tr_types.py
+   on every run. *)
+From Coq Require Import ZArith List Bool Reals.
+From Flocq Require Import Core.Core IEEE754.BinarySingleNaN IEEE754.Binary IEEE754.Bits.
+From GD Require Import C06.Convert C06.ConvertProofs C06.SpecProofs Gen.ConvTable.
+Import ListNotations.
+Local Open Scope Z_scope.
 
-(* every one of the 144 cells of the switch regenerated from src/types.c
-   passes the decision procedure *)
+(* 1. every one of the 144 cells of the switch regenerated from src/types.c
+      passes the decision procedure *)
 Theorem conv_table_all_cells_ok : table_ok conv_table = true.
 Proof. vm_compute. reflexivity. Qed.
+
+(* 2. hence: for EVERY ordered pair of sample types and EVERY source sample on
+      which the C conversion demanded by the property is defined, the code's
+      cell computes exactly that conversion *)
+Theorem conversion_correct :
+  forall tin tout comps r,
+    spec_conv tin tout comps = Some r ->
+    exists c, lookup conv_table tin tout = Some c /\ eval_cell c tin tout comps = Some r.
+Proof.
+  intros tin tout comps r Hs.
+  destruct (table_ok_lookup conv_table conv_table_all_cells_ok tin tout) as [c [Hl Hok]].
+  exists c. split; [exact Hl | exact (cell_ok_sound tin tout c comps r Hok Hs)].
+Qed.
+
+(* 3. what "the C conversion" (spec_conv / spec_elem = conv_elem eo eo ei) is *)
+
+(* integer -> integer: always defined, result congruent modulo 2^N and in range *)
+Theorem int_to_int_wraps_mod_2N :
+  forall ei eo b, is_int ei = true -> is_int eo = true ->
+    exists r, conv_elem eo eo ei b = Some r /\
+      (ival eo r) mod 2 ^ cbits eo = (ival ei b) mod 2 ^ cbits eo /\ in_range eo (ival eo r) = true.
+Proof.
+  intros ei eo b Hi Ho. destruct (spec_int_int_defined ei eo b Hi Ho) as [r Hr].
+  exists r. split; [exact Hr | exact (spec_int_int_mod ei eo b r Hi Ho Hr)].
+Qed.
+
+(* ... and a representable value arrives unchanged *)
+Theorem int_to_int_representable_unchanged :
+  forall ei eo b r, is_int ei = true -> is_int eo = true ->
+    conv_elem eo eo ei b = Some r -> in_range eo (ival ei b) = true -> ival eo r = ival ei b.
+Proof. exact spec_int_int_representable. Qed.
+
+(* integer -> floating: the nearest representable value, never an overflow *)
+Theorem int_to_float64_nearest :
+  forall ei b, is_int ei = true ->
+    conv_elem F64 F64 ei b = Some (bits_of_b64 (canon64 (z_to_f64 (ival ei b)))) /\
+    Binary.B2R 53 1024 (z_to_f64 (ival ei b)) = round radix2 (FLT_exp (-1074) 53) ZnearestE (IZR (ival ei b)) /\
+    Binary.is_finite 53 1024 (z_to_f64 (ival ei b)) = true.
+Proof.
+  intros ei b Hi. split; [exact (spec_int_f64 ei b Hi) | exact (z_to_f64_nearest _ (ival_abs_bound ei b Hi))].
+Qed.
+
+Theorem int_to_float32_nearest :
+  forall ei b, is_int ei = true ->
+    conv_elem F32 F32 ei b = Some (bits_of_b32 (canon32 (z_to_f32 (ival ei b)))) /\
+    Binary.B2R 24 128 (z_to_f32 (ival ei b)) = round radix2 (FLT_exp (-149) 24) ZnearestE (IZR (ival ei b)) /\
+    Binary.is_finite 24 128 (z_to_f32 (ival ei b)) = true.
+Proof.
+  intros ei b Hi. split; [exact (spec_int_f32 ei b Hi) | exact (z_to_f32_nearest _ (ival_abs_bound ei b Hi))].
+Qed.
+
+(* floating -> integer: defined iff finite with in-range integer part; then truncation toward zero *)
+Theorem float64_to_int_truncates :
+  forall eo b r, is_int eo = true -> conv_elem eo eo F64 b = Some r ->
+    let f := b64_of_bits (b mod 2 ^ 64) in
+    Binary.is_finite 53 1024 f = true /\ in_range eo (Ztrunc (Binary.B2R 53 1024 f)) = true /\
+    ival eo r = Ztrunc (Binary.B2R 53 1024 f).
+Proof. exact spec_f64_int. Qed.
+
+Theorem float32_to_int_truncates :
+  forall eo b r, is_int eo = true -> conv_elem eo eo F32 b = Some r ->
+    let f := b32_of_bits (b mod 2 ^ 32) in
+    Binary.is_finite 24 128 f = true /\ in_range eo (Ztrunc (Binary.B2R 24 128 f)) = true /\
+    ival eo r = Ztrunc (Binary.B2R 24 128 f).
+Proof. exact spec_f32_int. Qed.
+
+Theorem float64_to_int_defined_when_in_range :
+  forall eo b, is_int eo = true ->
+    let f := b64_of_bits (b mod 2 ^ 64) in
+    Binary.is_finite 53 1024 f = true -> in_range eo (Ztrunc (Binary.B2R 53 1024 f)) = true ->
+    exists r, conv_elem eo eo F64 b = Some r.
+Proof. exact spec_f64_int_defined. Qed.
+
+(* float -> double is exact; double -> float keeps every representable value *)
+Theorem float32_to_float64_exact :
+  forall f : f32, Binary.is_finite 24 128 f = true ->
+    Binary.B2R 53 1024 (f32_to_f64 f) = Binary.B2R 24 128 f /\ Binary.is_finite 53 1024 (f32_to_f64 f) = true.
+Proof. exact f32_to_f64_exact. Qed.
+
+Theorem float64_to_float32_representable_unchanged :
+  forall f : f64, Binary.is_finite 53 1024 f = true ->
+    generic_format radix2 (FLT_exp (-149) 24) (Binary.B2R 53 1024 f) ->
+    (Rabs (Binary.B2R 53 1024 f) < bpow radix2 128)%R ->
+    Binary.B2R 24 128 (f64_to_f32 f) = Binary.B2R 53 1024 f.
+Proof. exact f64_to_f32_representable. Qed.
+
+(* real -> complex: zero imaginary part; complex -> real: imaginary part dropped *)
+Theorem real_to_complex_zero_imaginary :
+  forall tin tout b r, gd_complex tin = false -> gd_complex tout = true ->
+    spec_conv tin tout [b] = Some r -> exists re, r = [re; 0] /\ spec_elem tin tout b = Some re.
+Proof. exact spec_real_to_complex. Qed.
+
+Theorem complex_to_real_drops_imaginary :
+  forall tin tout re im im', gd_complex tin = true -> gd_complex tout = false ->
+    spec_conv tin tout [re; im] = spec_conv tin tout [re; im'] /\
+    spec_conv tin tout [re; im] = opt_bind (spec_elem tin tout re) (fun r => Some [r]).
+Proof. exact spec_complex_to_real. Qed.
+
+(* non-vacuity: the hypotheses are met by concrete, non-trivial samples *)
+Example conversion_correct_nonvacuous :
+  spec_conv T_FLOAT64 T_UINT32 [4748581863621132288] = Some [3000000000] /\   (* 3e9 *)
+  spec_conv T_INT16 T_UINT32 [65535] = Some [4294967295] /\                     (* -1 *)
+  spec_conv T_INT32 T_FLOAT32 [16777217] = Some [1266679808] /\                 (* 2^24+1 -> 2^24 *)
+  spec_conv T_COMPLEX128 T_INT8 [13830554455654793216; 4607182418800017408] = Some [255]. (* -1.0+1.0i -> -1 *)
+Proof. vm_compute. repeat split. Qed.
